@@ -92,9 +92,9 @@ Section G.
   Proof. unfold nispm_gen. cons. Qed.
   Lemma consumes_nisp2_gen msgs c1 c2 pk bases ck U : consumes (nisp2_gen CS msgs c1 c2 pk bases ck U).
   Proof. unfold nisp2_gen. cons. Qed.
-  Lemma consumes_same_secret x r1 r2 g1 h1 g2 h2 b n : consumes (proof_same_secret BP x r1 r2 g1 h1 g2 h2 b n).
+  Lemma consumes_same_secret x r1 r2 g1 h1 g2 h2 b n s2x : consumes (proof_same_secret BP x r1 r2 g1 h1 g2 h2 b n s2x).
   Proof. unfold proof_same_secret. cons. Qed.
-  Lemma consumes_square x r1 g h E b n : consumes (proof_of_square BP x r1 g h E b n).
+  Lemma consumes_square x r1 g h E b n s2x : consumes (proof_of_square BP x r1 g h E b n s2x).
   Proof. unfold proof_of_square. cons. apply consumes_same_secret. Qed.
   Lemma consumes_large_interval x r g h b n T : consumes (proof_large_interval BP x r g h b n T).
   Proof. unfold proof_large_interval. cons. Qed.
